@@ -24,9 +24,9 @@ inductive Freq | Y | M | D | H | T | S
   deriving DecidableEq, Repr
 
 def parseFreq (s : Str) : Option Freq :=
-  if s = ofString "Y" then some .Y else if s = ofString "M" then some .M
-  else if s = ofString "D" then some .D else if s = ofString "H" then some .H
-  else if s = ofString "T" then some .T else if s = ofString "S" then some .S else none
+  if s = [89] then some .Y else if s = [77] then some .M
+  else if s = [68] then some .D else if s = [72] then some .H
+  else if s = [84] then some .T else if s = [83] then some .S else none
 
 /-- `truncateToFrequency` -/
 def truncate (q : Freq) (t : GoTime) : GoTime :=
